@@ -28,8 +28,8 @@ ASSUMPTIONS = [
     "heterogeneity function h(point, u, params) = a + b.z + c*kappa; it replaces the parameter inside the equation only",
 ]
 TIMEOUT = {"quick": 1800, "thorough": 5400}
-MIN_COUNTERS = {"quick": {"terms_compared": 200, "grad_comparisons": 40, "hetero_cases": 25, "system_cases": 8},
-                "thorough": {"terms_compared": 3000, "grad_comparisons": 500, "hetero_cases": 300, "system_cases": 100}}
+MIN_COUNTERS = {"quick": {"terms_compared": 200, "grad_comparisons": 40, "hetero_cases": 25, "system_cases": 8, "hyper_cases": 8},
+                "thorough": {"terms_compared": 3000, "grad_comparisons": 500, "hetero_cases": 300, "system_cases": 100, "hyper_cases": 80}}
 KEYS = ["theta", "phi", "kappa"]
 EQ0 = {"theta": 0.8, "phi": 0.3, "kappa": -0.6}
 
@@ -56,6 +56,11 @@ def gen_cases(tier, seed):
                           hmap=hmaps[k % len(hmaps)], pbatch=bool((k // 5) % 2), B=int(rng.integers(1, 6)),
                           n_out=int(rng.integers(1, 3)), ncomp=int(rng.integers(1, 3)),
                           seed=seed * 100000 + 50000 + k, cost=1.5))
+    for k in range(12 if q else 120):
+        kind = kinds[k % 3]
+        cases.append(dict(mode="hyper", kind=kind, d=0 if kind == "ode" else int(rng.integers(1, 3)),
+                          batched=subsets[(k * 5 + 1) % len(subsets)], B=int(rng.integers(2, 6)),
+                          seed=seed * 100000 + 90000 + k, cost=2.5))
     for k in range(12 if q else 150):
         cases.append(dict(mode="system", kind=["ode", "statio", "nonstatio"][k % 3],
                           d=0 if k % 3 == 0 else 1 + (k // 3) % 2, B=int(rng.integers(1, 5)),
@@ -223,6 +228,8 @@ def run_case(case, rec):
     rng = np.random.default_rng([case["seed"], 12])
     if case["mode"] == "system":
         return run_system(case, rec, rng)
+    if case["mode"] == "hyper":
+        return run_hyper(case, rec, rng)
     ev = jax.jit(lambda l, p, b: l.evaluate(p, b))
     B = case["B"]
 
@@ -437,3 +444,69 @@ def run_system(case, rec, rng):
         if t in exp and not close(float(terms[t]), exp[t], 1e-8, 1e-10):
             rec.violation(sig + "/%s/value" % t, "system term %s = %r, numpy expectation %r" % (t, float(terms[t]), exp[t]))
     rec.set_sample(kind=case["kind"], batched=batched, terms={k: float(v) for k, v in terms.items()}, loop=acc)
+
+
+def run_hyper(case, rec, rng):
+    """hyper-network wrapper: the batched keys feed the hyper-network (phi, kappa) and/or the equation (theta);
+    oracle = mean over rows of the unbatched real loss (no numpy twin of the hyper-network here, see C10)"""
+    import equinox as eqx
+    import jax
+    import jax.numpy as jnp
+    import jinns
+    from jinns.parameters import Params
+
+    from .. import eqs
+
+    rec.count("hyper_cases")
+    kind, d, B = case["kind"], case["d"], case["B"]
+    D = {"ode": 1, "statio": d, "nonstatio": d + 1}[kind]
+    eqt = {"ode": "ODE", "statio": "statio_PDE", "nonstatio": "nonstatio_PDE"}[kind]
+    lst = ((eqx.nn.Linear, D, 4), (jax.nn.tanh,), (eqx.nn.Linear, 4, 1))
+    u = guard.call(jinns.utils.create_HYPERPINN, jax.random.PRNGKey(case["seed"] % 1000), lst, eqt, ["phi", "kappa"], 2,
+                   0 if kind == "ode" else d,
+                   eqx_list_hyper=((eqx.nn.Linear, 2, 3), (jax.nn.tanh,), (eqx.nn.Linear, 3, 1)))
+    params = Params(nn_params=u.init_params(), eq_params={k: jnp.asarray([v]) for k, v in EQ0.items()})
+    spec = eqs.ResidSpec(case["seed"], 2, 1, D)
+    dyn = spec.module(kind)
+    kw = {}
+    pts = rng.uniform(0, 1, (B, 1)) if kind == "ode" else rng.uniform(-1, 2, (B, D))
+    if kind == "ode":
+        loss = jinns.loss.LossODE(u=u, dynamic_loss=dyn, initial_condition=(0.25, jnp.asarray([0.3])), params=params)
+        mk = lambda sl: jinns.data.ODEBatch(temporal_batch=jnp.asarray(pts[sl, 0]))
+    elif kind == "statio":
+        loss = jinns.loss.LossPDEStatio(u=u, dynamic_loss=dyn, params=params)
+        mk = lambda sl: jinns.data.PDEStatioBatch(inside_batch=jnp.asarray(pts[sl]), border_batch=None)
+    else:
+        c0 = jnp.asarray([0.2])
+        loss = jinns.loss.LossPDENonStatio(u=u, dynamic_loss=dyn, initial_condition_fun=lambda x: c0 + 0.0 * jnp.sum(x), params=params)
+        mk = lambda sl: jinns.data.PDENonStatioBatch(times_x_inside_batch=jnp.asarray(pts[sl]), times_x_border_batch=None)
+    batched = case["batched"]
+    tabs = {k: rng.uniform(0.4, 1.6, (B, 1)) for k in batched}
+    batch = jinns.data.append_param_batch(mk(slice(None)), {k: jnp.asarray(v) for k, v in tabs.items()})
+    ev = jax.jit(lambda l, p, b: l.evaluate(p, b))
+    sig = "param-batch/hyper-%s" % kind
+    try:
+        _, terms = guard.call(ev, loss, params, batch)
+    except guard.Crash as c:
+        rec.violation(sig + "/crash@" + c.where.split(":")[-1], "hyper-network loss with a parameter batch crashed: %s" % c, batched=batched)
+        return
+    acc, acc_mean = {}, {}
+    for i in range(B):
+        p_i = Params(nn_params=params.nn_params,
+                     eq_params={k: (jnp.asarray(tabs[k][i]) if k in batched else params.eq_params[k]) for k in KEYS})
+        _, ti = guard.call(ev, loss, p_i, mk(slice(i, i + 1)))
+        p_m = Params(nn_params=params.nn_params,
+                     eq_params={k: (jnp.asarray(np.mean(tabs[k], axis=0)) if k in batched else params.eq_params[k]) for k in KEYS})
+        _, tm = guard.call(ev, loss, p_m, mk(slice(i, i + 1)))
+        for t in ti:
+            acc[t] = acc.get(t, 0.0) + float(ti[t]) / B
+            acc_mean[t] = acc_mean.get(t, 0.0) + float(tm[t]) / B
+    for t in acc:
+        rec.count("terms_compared")
+        if abs(acc[t] - acc_mean[t]) > 1e-6:
+            rec.nontrivial(("hyper", kind, d, tuple(batched), t, B, case["seed"]))
+        if not close(float(terms[t]), acc[t], 1e-8, 1e-10):
+            rec.violation(sig + "/%s/batched-differs-from-mean-of-unbatched" % t,
+                          "hyper-network: term %s batched %r, mean of unbatched evaluations %r (batched keys %s)"
+                          % (t, float(terms[t]), acc[t], batched))
+    rec.set_sample(mode="hyper", kind=kind, batched=batched, B=B, terms={k: float(v) for k, v in terms.items()}, loop=acc)
